@@ -10,9 +10,9 @@ use crate::txn::lin;
 use crate::util::*;
 use crate::Opts;
 use async_trait::async_trait;
-use camino::Utf8PathBuf;
+use camino::{Utf8Path, Utf8PathBuf};
 use cfdp_core::daemon::{EntityConfig, Indication, NakProcedure, PutRequest, UserPrimitive};
-use cfdp_core::filestore::{ChecksumType, NativeFileStore};
+use cfdp_core::filestore::{ChecksumType, FileStore, FileStoreResult, NativeFileStore};
 use cfdp_core::pdu::*;
 use cfdp_core::transaction::{TransactionID, TransactionState};
 use cfdp_daemon::transport::PDUTransport;
@@ -42,6 +42,55 @@ impl PDUTransport for SimTransport {
             // poll a closed channel in a tight loop)
             None => std::future::pending().await,
         }
+    }
+}
+
+/// the native filestore, optionally with a slow scratch-file allocation (a device that has to wake up):
+/// while the receive transaction waits for it, the PDUs routed to it pile up in its command channel
+struct SlowStore {
+    inner: NativeFileStore,
+    tempfile_delay: Duration,
+}
+
+impl FileStore for SlowStore {
+    fn get_native_path<P: AsRef<Utf8Path>>(&self, path: P) -> Utf8PathBuf {
+        self.inner.get_native_path(path)
+    }
+    fn create_file<P: AsRef<Utf8Path>>(&self, path: P) -> FileStoreResult<()> {
+        self.inner.create_file(path)
+    }
+    fn delete_file<P: AsRef<Utf8Path>>(&self, path: P) -> FileStoreResult<()> {
+        self.inner.delete_file(path)
+    }
+    fn rename_file<P: AsRef<Utf8Path>, U: AsRef<Utf8Path>>(&self, from: P, to: U) -> FileStoreResult<()> {
+        self.inner.rename_file(from, to)
+    }
+    fn append_file<P: AsRef<Utf8Path>, U: AsRef<Utf8Path>>(&self, a: P, b: U) -> FileStoreResult<()> {
+        self.inner.append_file(a, b)
+    }
+    fn replace_file<P: AsRef<Utf8Path>, U: AsRef<Utf8Path>>(&self, a: P, b: U) -> FileStoreResult<()> {
+        self.inner.replace_file(a, b)
+    }
+    fn create_directory<P: AsRef<Utf8Path>>(&self, path: P) -> FileStoreResult<()> {
+        self.inner.create_directory(path)
+    }
+    fn remove_directory<P: AsRef<Utf8Path>>(&self, path: P) -> FileStoreResult<()> {
+        self.inner.remove_directory(path)
+    }
+    fn list_directory<P: AsRef<Utf8Path>>(&self, path: P) -> FileStoreResult<String> {
+        self.inner.list_directory(path)
+    }
+    fn open<P: AsRef<Utf8Path>>(&self, path: P, options: &mut std::fs::OpenOptions) -> FileStoreResult<std::fs::File> {
+        self.inner.open(path, options)
+    }
+    fn open_tempfile(&self) -> FileStoreResult<std::fs::File> {
+        if !self.tempfile_delay.is_zero() {
+            std::thread::sleep(self.tempfile_delay);
+        }
+        self.inner.open_tempfile()
+    }
+    fn get_size<P: AsRef<Utf8Path>>(&self, path: P) -> FileStoreResult<u64> {
+        self.inner.get_size(path)
     }
 }
 
@@ -91,11 +140,11 @@ fn vid(n: u16) -> VariableID {
     VariableID::from(n)
 }
 
-fn start_node(me: u16, peers: &[u16], base: &Utf8PathBuf, cfg: &Cfg, to_net: UnboundedSender<(u16, VariableID, PDU)>) -> Node {
+fn start_node(me: u16, peers: &[u16], base: &Utf8PathBuf, cfg: &Cfg, to_net: UnboundedSender<(u16, VariableID, PDU)>, slow_ms: u64) -> Node {
     let root = base.join(format!("e{}", me));
     let _ = std::fs::remove_dir_all(&root);
     std::fs::create_dir_all(&root).unwrap();
-    let filestore = Arc::new(NativeFileStore::new(&root));
+    let filestore = Arc::new(SlowStore { inner: NativeFileStore::new(&root), tempfile_delay: Duration::from_millis(slow_ms) });
     let (prim_tx, prim_rx) = channel(100);
     let (ind_tx, ind_rx) = channel(100000);
     let (inject_tx, from_net) = channel(100000);
@@ -148,6 +197,10 @@ struct Scenario {
     kplan: BTreeMap<(u16, &'static str, u64), Fault>,
     /// (at ms, to entity, pdu, take the sequence number of this job's transaction)
     strays: Vec<(u64, u16, PDU, Option<usize>)>,
+    /// entity 2's filestore takes this long to hand out a scratch file (real-time scenarios only)
+    slow_ms: u64,
+    /// stop as soon as every job has ended at both entities (real-time scenarios)
+    early_exit: bool,
     /// no link fault loses anything for good: every transaction must succeed, exactly once (C11 others_unaffected)
     isolation: bool,
     horizon_s: u64,
@@ -172,8 +225,8 @@ fn id_repr(id: &TransactionID) -> String {
 async fn run_scenario(out: &mut dyn Write, viol: &mut u64, base: &Utf8PathBuf, sc: Scenario, tag: &str, tally: &mut BTreeMap<&'static str, u64>) {
     let (to_net, mut net_rx): (UnboundedSender<(u16, VariableID, PDU)>, UnboundedReceiver<(u16, VariableID, PDU)>) = unbounded_channel();
     let mut nodes: BTreeMap<u16, Node> = BTreeMap::new();
-    nodes.insert(1, start_node(1, &[2], base, &sc.cfg, to_net.clone()));
-    nodes.insert(2, start_node(2, &[1], base, &sc.cfg, to_net.clone()));
+    nodes.insert(1, start_node(1, &[2], base, &sc.cfg, to_net.clone(), 0));
+    nodes.insert(2, start_node(2, &[1], base, &sc.cfg, to_net.clone(), sc.slow_ms));
     let inject: BTreeMap<u16, Sender<PDU>> = nodes.iter().map(|(k, n)| (*k, n.inject_tx.clone())).collect();
     // ---- the link
     let plan = sc.plan.clone();
@@ -185,6 +238,7 @@ async fn run_scenario(out: &mut dyn Write, viol: &mut u64, base: &Utf8PathBuf, s
     let delivered2 = delivered.clone();
     let delivered3 = delivered.clone();
     let t0 = tokio::time::Instant::now();
+    let in_order = sc.early_exit;
     let net = tokio::task::spawn(async move {
         let mut count: BTreeMap<u16, u64> = BTreeMap::new();
         let mut kcount: BTreeMap<(u16, &'static str), u64> = BTreeMap::new();
@@ -212,6 +266,11 @@ async fn run_scenario(out: &mut dyn Write, viol: &mut u64, base: &Utf8PathBuf, s
             };
             for _ in 0..copies {
                 delivered2.lock().unwrap().entry(to).or_default().push(hdr_repr(&pdu));
+                if in_order {
+                    // real-time scenarios: an order-preserving link (worker threads would race otherwise)
+                    let _ = tx.send(pdu.clone()).await;
+                    continue;
+                }
                 let tx = tx.clone();
                 let pdu = pdu.clone();
                 tokio::task::spawn(async move {
@@ -281,8 +340,9 @@ async fn run_scenario(out: &mut dyn Write, viol: &mut u64, base: &Utf8PathBuf, s
     let horizon = Duration::from_secs(sc.horizon_s);
     let mut elapsed = Duration::ZERO;
     while elapsed < horizon {
-        tokio::time::sleep(Duration::from_millis(250)).await;
-        elapsed += Duration::from_millis(250);
+        let tick = Duration::from_millis(if sc.early_exit { 50 } else { 250 });
+        tokio::time::sleep(tick).await;
+        elapsed += tick;
         for (e, n) in nodes.iter_mut() {
             while let Ok(ind) = n.ind_rx.try_recv() {
                 match ind {
@@ -309,6 +369,9 @@ async fn run_scenario(out: &mut dyn Write, viol: &mut u64, base: &Utf8PathBuf, s
                     _ => {}
                 }
             }
+        }
+        if sc.early_exit && jobs.iter().all(|j| j.id.as_ref().map_or(true, |id| [j.from, j.to].iter().all(|e| end_ms.contains_key(&format!("{}@{}", id_repr(id), e))))) {
+            break;
         }
     }
     stray_task.abort();
@@ -346,7 +409,10 @@ async fn run_scenario(out: &mut dyn Write, viol: &mut u64, base: &Utf8PathBuf, s
         if sc.isolation {
             // C11: nothing was lost on the link, so whatever else happened at the daemons (other
             // transactions, strays, replays) this transaction succeeds, and reports it exactly once
-            let recv_once = r.recv_finished.len() == 1 && recv_success;
+            // (a straggler - e.g. a retransmitted EOF that was slow on the link - arriving after the
+            // end of its transaction legitimately starts a fresh receive transaction that ends by its
+            // own limits, so later receiver outcomes under the same id are not held against it)
+            let recv_once = r.recv_finished.first().map_or(false, |x| x.0 == Condition::NoError && x.1 == DeliveryCode::Complete);
             let send_once = s.send_finished.len() == 1 && send_success;
             let send_expected = j.mode == TransmissionMode::Acknowledged || sc.cfg.closure;
             if !recv_once || got.as_deref() != Some(&j.file[..]) || (send_expected && !send_once) || (!send_expected && s.send_finished.iter().any(|x| x.0 != Condition::NoError)) {
@@ -527,6 +593,8 @@ pub fn run(opts: &Opts, out: &mut dyn Write) {
             kplan,
             strays: vec![],
             isolation: false,
+            slow_ms: 0,
+            early_exit: false,
             bounded: true,
         };
         scenarios += 1;
@@ -544,7 +612,9 @@ pub fn run(opts: &Opts, out: &mut dyn Write) {
         let mut jobs = vec![];
         for i in 0..njobs {
             let from = if rng.chance(1, 2) { 1 } else { 2 };
-            let len = *rng.pick(&[0usize, 1, segu, 2 * segu + 3, 6 * segu]);
+            // one transfer in four scenarios is long: more PDUs in one burst than a transaction's
+            // command channel holds (back-pressure between the daemon's router and the task)
+            let len = if i == 0 && k % 4 == 1 { 150 * segu + 5 } else { *rng.pick(&[0usize, 1, segu, 2 * segu + 3, 6 * segu]) };
             jobs.push(Job {
                 from,
                 to: 3 - from,
@@ -604,12 +674,32 @@ pub fn run(opts: &Opts, out: &mut dyn Write) {
             kplan,
             strays,
             isolation: true,
+            slow_ms: 0,
+            early_exit: false,
             bounded: true,
         };
         scenarios += 1;
         {
             // a fresh runtime per scenario: dropping it drops every task the daemons spawned
             let rt = new_rt();
+            rt.block_on(run_scenario(out, &mut viol, &base, sc, &tag, &mut tally));
+        }
+    }
+    // ---- C11, back-pressure: real time, several worker threads, a receiver whose filestore is slow to
+    // hand out the scratch file, so the PDUs of a long transfer pile up behind its receive transaction
+    // (more than its command channel holds) while a short transfer runs next to it.  Nothing is lost.
+    let n_burst = if opts.thorough { 4 } else { 1 };
+    for k in 0..n_burst {
+        let cfg = Cfg { seg: 64, max: 3, ti: 20, ta: 20, tn: 20, crc: rng.chance(1, 2), closure: false, nak: NakProcedure::Deferred(Duration::ZERO) };
+        let jobs = vec![
+            Job { from: 1, to: 2, mode: TransmissionMode::Unacknowledged, file: lin(150 * 64 + 5 + 64 * rng.below(40) as usize, 7, 3), src: "long.bin".into(), dst: "long.out".into(), id: None },
+            Job { from: 1, to: 2, mode: if rng.chance(1, 2) { TransmissionMode::Acknowledged } else { TransmissionMode::Unacknowledged }, file: lin(700, 11, 5), src: "short.bin".into(), dst: "short.out".into(), id: None },
+        ];
+        let tag = format!("c11-burst-{}-seed{}", k, opts.seed);
+        let sc = Scenario { horizon_s: 15, cfg, jobs, plan: BTreeMap::new(), kplan: BTreeMap::new(), strays: vec![], isolation: true, slow_ms: 400, early_exit: true, bounded: true };
+        scenarios += 1;
+        {
+            let rt = tokio::runtime::Builder::new_multi_thread().worker_threads(4).enable_time().build().unwrap();
             rt.block_on(run_scenario(out, &mut viol, &base, sc, &tag, &mut tally));
         }
     }
